@@ -24,6 +24,7 @@ clause → theorem
 * the mounted handler strips only the prefix ............................. `C07.pointer_for_strips_only_prefix`, `C07.relative_pointer_strips_only_prefix`
 * struct segments = RFC 6901 tokens, any depth (stack and spill branch) .. `C07.segments_rfc6901`, `C07.struct_segments`
 * `replace("~1","/").replace("~0","~")` = unescape on well-formed tokens . `C07.replace_is_unescape` (`~01` regression: `C07.tilde01`)
+* mounted struct: body gate, tokens handed to `repe_handle`, derive addressing `C07.mounted_struct_call`, `C07.derived_addresses_segments`, `C07.derived_read_after_write`, `C07.struct_and_adapter_gates`
 * composition with C03 (`found` of `route`/`respond` = this `Router.get`) .. `C07.found_iff_registered`, `C07.served_through_router`
 
 Not proved (differential only): that `serde_json::from_slice` / `beve::from_slice` /
@@ -402,5 +403,74 @@ example : dispatchSegments 16 [] = [] ∧ dispatchSegments 16 "/".toList = [[]] 
     EscWF "/a~1b/~01".toList := by
   refine ⟨by decide, by decide, by decide, by decide, by decide, ?_⟩
   exact (escWF_iff _).mp (by decide)
+
+/-! ## what a mounted struct does with the segments (RegisteredStruct::handle + #[derive(RepeStruct)]) -/
+
+/-- The generated `repe_handle` addresses exactly the tokens it was given: whatever it resolves a
+request to (field read/write at any nesting depth, whole-(sub)struct read/write, method call), the
+access path is the list of segments – nothing skipped, merged or re-interpreted. -/
+theorem derived_addresses_segments (spec : Spec) (segs : List Str) (body : Bool) (a : Access)
+    (h : resolve spec [] segs body = .ok a) : a.path = segs := by
+  simpa using resolve_path segs spec [] body a h
+
+/-- Read-after-write on a derived struct, at any nesting depth: a path that resolves to a writable
+leaf accepts the value, a later read of the same path returns it, and every other leaf keeps its
+value. -/
+theorem derived_read_after_write (spec : Spec) (d : Bytes) (st : Store) (segs : List Str) (v : Bytes) (w : Bool)
+    (p : List Str) (h : resolve spec [] segs true = .ok (.write p)) :
+    let st' := (derivedHandle spec d st segs (some v) w).2
+    (derivedHandle spec d st segs (some v) w).1 = .null ∧
+    (derivedHandle spec d st' segs none w).1 = .value v ∧
+    ∀ q, q ≠ segs → resolve spec [] q false = .ok (.read q) →
+      (derivedHandle spec d st' q none w).1 = (derivedHandle spec d st q none w).1 := by
+  have hp : p = segs := by simpa [Access.path] using resolve_path segs spec [] true _ h
+  subst hp
+  have hr := resolve_write_read p spec [] p h
+  refine ⟨by simp [derivedHandle, h], ?_, ?_⟩
+  · simp [derivedHandle, h, hr, store_get_set]
+  · intro q hq hrq
+    simp [derivedHandle, h, hrq, store_get_set_ne _ _ _ _ _ hq]
+
+/-- Router → struct mount → derived struct, end to end: for a struct mounted at a normalised root
+`p ≠ ""` and a request path `p ++ rest` with well-formed escapes, `RegisteredStruct::handle` hands
+`repe_handle` the RFC 6901 tokens of `rest` (when the body gate lets the request through), so the
+derived struct resolves the request against exactly those tokens. -/
+theorem mounted_struct_call (p rest : Str) (hp : p ≠ []) (h : EscWF rest) (hr : rest = [] ∨ ∃ r, rest = '/' :: r)
+    (bfmt : Nat) (body : Bytes) (decodes : Decoder → Bool) :
+    let F := Gen.handlerFacts
+    structCall Gen.routerFacts.stackSegs F.structGate F.structEmptyBodyIsRead p (p ++ rest) bfmt body decodes =
+      if body = [] then .handle (rfc6901 rest) false
+      else match F.structGate.lookup bfmt with
+        | none => .invalidBody
+        | some dec => if decodes dec then .handle (rfc6901 rest) true else .undecodable := by
+  intro F
+  have hs := struct_segments p rest hp h hr
+  unfold structCall
+  cases hrel : relativePointer p (p ++ rest) with
+  | none => simp [hrel] at hs
+  | some rel =>
+    simp only [hrel, Option.map_some, Option.some.injEq] at hs
+    have he : F.structEmptyBodyIsRead = true := by decide
+    simp only [structBodyGate, he, Bool.true_and, hs]
+    by_cases hb : body = []
+    · simp [hb]
+    · have : body.isEmpty = false := by simpa using hb
+      simp only [this, Bool.false_eq_true, if_false, hb]
+      cases F.structGate.lookup bfmt <;> rfl
+
+/-- the struct mount and the `JsonTypedHandler` adapter gate body formats exactly like the JSON/typed
+decoders (facts): JSON and UTF-8 through serde_json, BEVE through beve, everything else InvalidBody -/
+theorem struct_and_adapter_gates :
+    Gen.handlerFacts.structGate = Gen.handlerFacts.jsonOwned ∧ Gen.handlerFacts.adapterGate = Gen.handlerFacts.typedOwned ∧
+    Gen.handlerFacts.structEmptyBodyIsRead = true := by decide
+
+/-- non-vacuity on `demoSpec` (plain field, read-only field, struct nested two levels deep, methods) -/
+example : resolve demoSpec [] ["inner".toList, "deep".toList, "z".toList] true
+      = .ok (.write ["inner".toList, "deep".toList, "z".toList]) ∧
+    resolve demoSpec [] ["ro".toList] true = .error .bodyUnexpected ∧
+    resolve demoSpec [] ["a".toList, "b".toList] false = .error .invalidSubpath ∧
+    resolve demoSpec [] ["nope".toList] false = .error .invalidPath ∧
+    resolve demoSpec [] ["echo".toList] false = .error .bodyExpected ∧
+    resolve demoSpec [] [[]] false = .error .invalidPath := ⟨by rfl, by rfl, by rfl, by rfl, by rfl, by rfl⟩
 
 end Repe.C07
